@@ -204,6 +204,10 @@ func c10(ctx *Ctx) {
 		},
 		OnProgram: func(sc *SCase, p *batch.Program) { c10OneType(ctx, sc, p, defsOf[sc.ID]) },
 		OnGenErr: func(sc *SCase, msg string) {
+			if sc.Axes["pos"] == "file-def" && strings.Contains(msg, "schema has no root") && ctx.Run.Listed("DEFS_ONLY_FILE_HAS_NO_ROOT") {
+				ctx.Run.Known("DEFS_ONLY_FILE_HAS_NO_ROOT", sc.ID+": "+firstLine(msg), map[string]any{"kind": "gen", "files": sc.Case().Files, "args": sc.Case().Args, "cfg": sc.Case().Cfg})
+				return
+			}
 			ctx.Run.Violation("factored-not-generated:"+sc.Axes["pos"], fmt.Sprintf("%s: the factored schema is rejected although the inline schema is accepted: %s", sc.ID, firstLine(msg)),
 				map[string]any{"kind": "gen", "files": sc.Case().Files, "args": sc.Case().Args, "cfg": sc.Case().Cfg})
 		},
